@@ -16,7 +16,17 @@
 using namespace datasketches;
 using vt::Ev;
 
-struct Row { long x; long long est, lb, ub; };
+typedef unsigned long long ull;
+struct Row { long x; ull est, lb, ub; };
+// wide profile (64-bit weights): numbers are logged as 4 little-endian limbs of 20 bits (spec/WideNum.tla), else as plain integers
+static bool g_wide = false;
+static std::string num(ull v) {
+  if (!g_wide) return std::to_string(v);
+  std::string s = "[";
+  for (int k = 0; k < 4; k++) { if (k) s += ","; s += std::to_string((ull)((v >> (20 * k)) & 0xfffffULL)); }
+  return s + "]";
+}
+template<class C> static std::string numlist(const C& c) { std::string s = "["; bool f = true; for (auto v : c) { if (!f) s += ","; f = false; s += num((ull)v); } return s + "]"; }
 
 // REFERENCE 16-bit seed hash (published definition, common/include/MurmurHash3.h: low 16 bits of h1 of MurmurHash3_x64_128 of
 // the 8 seed bytes with seed 0), used only to MINE pairs of different seeds whose seed hashes collide: such sketches are
@@ -33,13 +43,24 @@ static std::string rows_json(const std::vector<Row>& r) {
   std::string s = "[";
   for (size_t k = 0; k < r.size(); k++) {
     if (k) s += ",";
-    s += "[" + std::to_string(r[k].x) + "," + std::to_string(r[k].est) + "," + std::to_string(r[k].lb) + "," + std::to_string(r[k].ub) + "]";
+    s += "[" + std::to_string(r[k].x) + "," + num(r[k].est) + "," + num(r[k].lb) + "," + num(r[k].ub) + "]";
   }
   return s + "]";
 }
 static int64_t ival(long idx) { return (int64_t)idx * 7919 - 5; }
 static uint64_t uval(long idx) { return 0x8000000000000000ULL + (uint64_t)idx * 104729ULL; }
-static std::string sval(long idx) { return "cm-item-" + std::to_string(idx) + (idx % 2 ? "" : "-with-a-longer-tail-than-sixteen-bytes"); }
+// string items: text, and binary keys with NUL bytes at the start, in the middle and at the end (the item is the WHOLE std::string)
+static std::string sval(long idx) {
+  std::string d = std::to_string(idx);
+  switch ((idx / 3) % 6) {
+    case 0: return "cm-item-" + d;
+    case 1: return "cm-item-" + d + "-with-a-longer-tail-than-sixteen-bytes";
+    case 2: return std::string("cm\0item-", 8) + d;                       // NUL in the middle (same prefix "cm" for all of them)
+    case 3: return std::string("\0lead-", 6) + d;                         // NUL first
+    case 4: return "trail-" + d + std::string("\0", 1);                   // NUL last
+    default: { uint64_t v = (uint64_t)idx << 24; return std::string((const char*)&v, 8) + d; }   // binary key: three leading NUL bytes
+  }
+}
 
 template<class W> struct Driver {
   using Sk = count_min_sketch<W>;
@@ -47,8 +68,8 @@ template<class W> struct Driver {
   // ids: 0..NS-1 sketches, 10+i their witnesses, 20+b witness snapshots taken when blob b was written
   vt::Rng& g; int serde_pct;
   std::map<int, std::unique_ptr<Sk>> sk;
-  std::map<int, std::vector<long long>> prev;
-  std::map<int, std::vector<std::pair<long, long>>> stream;
+  std::map<int, std::vector<ull>> prev;
+  std::map<int, std::vector<std::pair<long, ull>>> stream;
   std::map<int, bool> restored;
   struct Cfg { int rows; long buckets; long seed; bool operator==(const Cfg& o) const { return rows == o.rows && buckets == o.buckets && seed == o.seed; } };
   std::map<int, Cfg> cfg;
@@ -61,7 +82,7 @@ template<class W> struct Driver {
   Driver(vt::Rng& g_, int sp): g(g_), serde_pct(sp) {}
   static const char* wname() { return std::is_signed<W>::value ? "i64" : "u64"; }
 
-  void upd(Sk& s, long x, long w, bool raw) {
+  void upd(Sk& s, long x, ull w, bool raw) {
     switch (x % 3) {
       case 0: { int64_t v = ival(x); if (raw) s.update(&v, sizeof v, (W)w); else s.update(v, (W)w); break; }
       case 1: { uint64_t v = uval(x); if (raw) s.update(&v, sizeof v, (W)w); else s.update(v, (W)w); break; }
@@ -70,31 +91,31 @@ template<class W> struct Driver {
   }
   Row query(const Sk& s, long x, bool raw) {
     switch (x % 3) {
-      case 0: { int64_t v = ival(x); return raw ? Row{x, (long long)s.get_estimate(&v, 8), (long long)s.get_lower_bound(&v, 8), (long long)s.get_upper_bound(&v, 8)}
-                                                 : Row{x, (long long)s.get_estimate(v), (long long)s.get_lower_bound(v), (long long)s.get_upper_bound(v)}; }
-      case 1: { uint64_t v = uval(x); return raw ? Row{x, (long long)s.get_estimate(&v, 8), (long long)s.get_lower_bound(&v, 8), (long long)s.get_upper_bound(&v, 8)}
-                                                  : Row{x, (long long)s.get_estimate(v), (long long)s.get_lower_bound(v), (long long)s.get_upper_bound(v)}; }
-      default: { std::string v = sval(x); return raw ? Row{x, (long long)s.get_estimate(v.data(), v.size()), (long long)s.get_lower_bound(v.data(), v.size()), (long long)s.get_upper_bound(v.data(), v.size())}
-                                                     : Row{x, (long long)s.get_estimate(v), (long long)s.get_lower_bound(v), (long long)s.get_upper_bound(v)}; }
+      case 0: { int64_t v = ival(x); return raw ? Row{x, (ull)s.get_estimate(&v, 8), (ull)s.get_lower_bound(&v, 8), (ull)s.get_upper_bound(&v, 8)}
+                                                 : Row{x, (ull)s.get_estimate(v), (ull)s.get_lower_bound(v), (ull)s.get_upper_bound(v)}; }
+      case 1: { uint64_t v = uval(x); return raw ? Row{x, (ull)s.get_estimate(&v, 8), (ull)s.get_lower_bound(&v, 8), (ull)s.get_upper_bound(&v, 8)}
+                                                  : Row{x, (ull)s.get_estimate(v), (ull)s.get_lower_bound(v), (ull)s.get_upper_bound(v)}; }
+      default: { std::string v = sval(x); return raw ? Row{x, (ull)s.get_estimate(v.data(), v.size()), (ull)s.get_lower_bound(v.data(), v.size()), (ull)s.get_upper_bound(v.data(), v.size())}
+                                                     : Row{x, (ull)s.get_estimate(v), (ull)s.get_lower_bound(v), (ull)s.get_upper_bound(v)}; }
     }
   }
-  std::vector<long long> cells(const Sk& s) { std::vector<long long> c; for (auto it = s.begin(); it != s.end(); ++it) c.push_back((long long)*it); return c; }
+  std::vector<ull> cells(const Sk& s) { std::vector<ull> c; for (auto it = s.begin(); it != s.end(); ++it) c.push_back((ull)*it); return c; }
   // new cell array against the previous event on this object: a short difference "d", or the whole array "cells"
   Ev& delta(Ev& e, int id) {
     auto cur = cells(*sk[id]); auto& p = prev[id];
     if (p.size() != cur.size()) p.assign(cur.size(), 0);
     size_t nch = 0; for (size_t k = 0; k < cur.size(); k++) if (cur[k] != p[k]) nch++;
-    if (nch > 48) e.il("cells", cur);
+    if (nch > 48) e.raw("cells", numlist(cur));
     else {
       std::string s = "["; bool first = true;
-      for (size_t k = 0; k < cur.size(); k++) if (cur[k] != p[k]) { if (!first) s += ","; first = false; s += "[" + std::to_string(k + 1) + "," + std::to_string(cur[k]) + "]"; }
+      for (size_t k = 0; k < cur.size(); k++) if (cur[k] != p[k]) { if (!first) s += ","; first = false; s += "[" + std::to_string(k + 1) + "," + num(cur[k]) + "]"; }
       e.raw("d", s + "]");
     }
     p = cur; return e;
   }
   Ev& scal(Ev& e, int id) {
     const Sk& s = *sk[id];
-    e.i("total", (long long)s.get_total_weight()).i("rows", s.get_num_hashes()).i("buckets", s.get_num_buckets()).i("seed", (long long)s.get_seed());
+    e.raw("total", num((ull)s.get_total_weight())).i("rows", s.get_num_hashes()).i("buckets", s.get_num_buckets()).i("seed", (long long)s.get_seed());
     if (restored[id]) e.b("restored", true);
     return e;
   }
@@ -105,9 +126,9 @@ template<class W> struct Driver {
     Ev e("New"); e.i("id", id).str("wt", wname()); scal(e, id).b("allzero", z).emit();
   }
   void mkpair(int i, const Cfg& c) { mk(i, c); mk(10 + i, c); }
-  void do_update(int id, long x, long w, bool raw) {
+  void do_update(int id, long x, ull w, bool raw) {
     upd(*sk[id], x, w, raw); ver[id]++; stream[id].emplace_back(x, w);
-    Ev e("Update"); e.i("id", id).i("x", x).i("w", w).b("raw", raw); delta(scal(e, id), id).emit();
+    Ev e("Update"); e.i("id", id).i("x", x).raw("w", num(w)).b("raw", raw); delta(scal(e, id), id).emit();
   }
   std::vector<long> probe_items() {
     std::vector<long> p;
@@ -123,7 +144,7 @@ template<class W> struct Driver {
   void obs(int id) {
     Ev e("Obs"); e.i("id", id); scal(e, id).raw("q", probes(*sk[id], probe_items(), g.chance(25)));
     auto c = cells(*sk[id]);
-    if (c.size() <= 400 || g.chance(25)) e.il("cells", c);
+    if (c.size() <= 400 || g.chance(25)) e.raw("cells", numlist(c));
     e.emit();
   }
   // i.merge(j) for sketch slots; j may be i (self merge) or of another configuration (must throw)
@@ -131,6 +152,7 @@ template<class W> struct Driver {
     bool compatible = i != j && cfg[i] == cfg[j];
     if (compatible) {
       if (stream[i].size() + stream[j].size() > STREAM_CAP) return;
+      if (wide && total_of(i) + total_of(j) > WIDE_CAP) return;
       for (auto& u : stream[j]) do_update(10 + i, u.first, u.second, false);      // the witness is fed the concatenation
     }
     std::string outcome = "ok", what;
@@ -144,7 +166,7 @@ template<class W> struct Driver {
   }
   void copy(int src, int dst) {
     sk[dst].reset(new Sk(*sk[src])); cfg[dst] = cfg[src]; prev[dst] = prev[src]; stream[dst] = stream[src]; restored[dst] = restored[src]; ver[dst]++;
-    Ev e("Copy"); e.i("src", src).i("dst", dst); scal(e, dst).il("cells", cells(*sk[dst])).emit();
+    Ev e("Copy"); e.i("src", src).i("dst", dst); scal(e, dst).raw("cells", numlist(cells(*sk[dst]))).emit();
   }
   void ser(int i, int b) {
     static const unsigned HS[] = {0, 0, 1, 7, 8, 13, 64};
@@ -173,22 +195,37 @@ template<class W> struct Driver {
     auto re = sk[j]->serialize();
     cfg[j] = bcfg[b]; restored[j] = true; ver[j]++; stream[j] = stream[20 + b]; prev[j] = cells(*sk[j]);
     Ev e("Deser"); e.i("blob", b).i("dst", j).str("path", strm ? "stream" : "bytes").i("consumed", consumed).bytes("reimg", re.data(), re.size());
-    scal(e, j).il("cells", prev[j]).raw("q", probes(*sk[j], probe_items(), false)).emit();
+    scal(e, j).raw("cells", numlist(prev[j])).raw("q", probes(*sk[j], probe_items(), false)).emit();
     copy(20 + b, 10 + j);      // its witness continues from the snapshot
   }
   long draw_item() {
     if (profile == 1) return g.range(1, U);
     double u = g.unit(); return 1 + (long)(std::lower_bound(cdf.begin(), cdf.end(), u) - cdf.begin());
   }
-  long draw_weight() { int c = (int)g.below(100); if (c < 4) return 0; if (c < 60) return 1; if (c < 90) return g.range(1, 10); return g.range(1, 1000); }
+  bool wide = false;
+  // wide profile: totals cross 2^53 (where a double stops representing every integer) and stay below 2^62
+  static constexpr ull WIDE_CAP = 1ULL << 62;
+  ull total_of(int id) { return (ull)sk[id]->get_total_weight(); }
+  ull draw_weight() {
+    int c = (int)g.below(100);
+    if (wide) {
+      if (c < 4) return 0;
+      if (c < 12) return (1ULL << 53) + g.below(2000);                                   // just above 2^53
+      if (c < 30) return ((1ULL << g.range(50, 59)) | (g.next() & ((1ULL << 50) - 1)));  // 2^50 .. 2^60 with random low bits
+      if (c < 70) return 1;
+      return (ull)g.range(1, 1000);
+    }
+    if (c < 4) return 0; if (c < 60) return 1; if (c < 90) return g.range(1, 10); return g.range(1, 1000);
+  }
   Cfg draw_cfg(int maxrows) {
     static const long BS[] = {3, 3, 4, 5, 7, 8, 16, 31, 64, 100, 257};
     static const long SEEDS[] = {9001, 9001, 1, 2, 12345, 2147483000};
     Cfg c; c.rows = (int)std::min(g.range(1, maxrows), g.range(1, maxrows)); c.buckets = BS[g.below(11)]; c.seed = SEEDS[g.below(6)];
     return c;
   }
-  void segment(long seg, long events, int maxrows) {
-    Ev("Begin").i("seg", seg).str("wt", wname()).emit();
+  void segment(long seg, long events, int maxrows, bool wide_ = false) {
+    wide = wide_; g_wide = wide_;
+    Ev("Begin").i("seg", seg).str("wt", wname()).b("wide", wide).emit();
     sk.clear(); prev.clear(); stream.clear(); restored.clear(); cfg.clear(); ver.clear();
     for (int b = 0; b < NB; b++) blive[b] = false;
     twin_a = twin_b = -1; twin_left = 0;
@@ -214,8 +251,9 @@ template<class W> struct Driver {
       int op = (int)g.below(100);
       int upd = 100 - 16 - 2 * serde_pct;
       if (op < upd) {
-        long x = draw_item(), w = draw_weight(); bool raw = g.chance(20);
+        long x = draw_item(); ull w = draw_weight(); bool raw = g.chance(20);
         if (stream[i].size() >= STREAM_CAP) continue;
+        if (wide && total_of(i) + w > WIDE_CAP / 2) { w = 1; if (total_of(i) + w > WIDE_CAP / 2) continue; }
         do_update(i, x, w, raw); do_update(10 + i, x, w, false);
         if (twin_left > 0) { do_update(twin_b, x, w, raw); do_update(10 + twin_b, x, w, false); twin_obs(); }
       } else if (op < upd + 6) {
@@ -304,11 +342,13 @@ int main(int argc, char** argv) {
   int serde_pct = (int)vt::argl(argc, argv, "--serde", 3);
   long stats = vt::argl(argc, argv, "--stats", 2);
   long hstats = vt::argl(argc, argv, "--hstats", 2);
+  long wide = vt::argl(argc, argv, "--wide", 0);      // 1: every segment uses 64-bit weights, numbers logged as limbs (TraceCountMinW.cfg)
   vt::open_out(vt::arg(argc, argv, "--out", "/dev/stdout"));
   vt::Rng g(seed);
   for (long seg = 0; seg < segments; seg++) {
-    if ((seg + seed) % 2 == 0) { Driver<uint64_t> d(g, serde_pct); d.segment(seg, events, maxrows); }
-    else { Driver<int64_t> d(g, serde_pct); d.segment(seg, events, maxrows); }
+    if ((seg + seed) % 2 == 0) { Driver<uint64_t> d(g, serde_pct); d.segment(seg, events, maxrows, wide != 0); }
+    else { Driver<int64_t> d(g, serde_pct); d.segment(seg, events, maxrows, wide != 0); }
+    g_wide = false;
   }
   static const long BK[] = {6, 8, 12, 16, 20, 32};
   for (long t = 0; t < stats; t++) {
